@@ -787,7 +787,15 @@ def format_docstring(obj: model.Documentable) -> Tag:
     """Generate an HTML representation of a docstring"""
 
     source = ensure_parsed_docstring(obj)
+    if source is not None and source.page_object is not obj.page_object:
+        # The docstring is inherited: it's presented on another page than the
+        # one of the object it has been written for, so always generate full urls.
+        # The links are checked when the docstring is presented with its source.
+        with source.docstring_linker.switch_context(None):
+            return _format_docstring(obj, source)
+    return _format_docstring(obj, source)
 
+def _format_docstring(obj: model.Documentable, source: Optional[model.Documentable]) -> Tag:
     ret: Tag = tags.div
     if source is None:
         ret(tags.p(class_='undocumented')("Undocumented"))
